@@ -545,3 +545,160 @@ Section Components.
              intros z Hz. apply in_app_or in Hz. destruct Hz as [Hz|Hz]; [left; assumption|right; apply L3; assumption].
   Qed.
 End Components.
+
+(* ---------- public statements ---------- *)
+
+Lemma rd_id_inj_in (M : list rd_node) a b : NoDup (map rd_id M) -> In a M -> In b M -> rd_id a = rd_id b -> a = b.
+Proof.
+  induction M as [|m M' IHM]; intros HM Ha Hb E; [destruct Ha|]. cbn [map] in HM. inversion HM as [|? ? Hni HM']; subst.
+  destruct Ha as [->|Ha]; destruct Hb as [->|Hb]; [reflexivity| | |apply IHM; assumption].
+  - exfalso. apply Hni. rewrite E. apply in_map. assumption.
+  - exfalso. apply Hni. rewrite <- E. apply in_map. assumption.
+Qed.
+
+Lemma rd_nodup_map_sub (L M : list rd_node) : NoDup L -> incl L M -> NoDup (map rd_id M) -> NoDup (map rd_id L).
+Proof.
+  intros HL Hinc HM. induction L as [|h t IH]; cbn [map]; [constructor|]. inversion HL as [|? ? Hni HL']; subst.
+  constructor; [|apply IH; [assumption|intros z Hz; apply Hinc; right; assumption]].
+  intros Hin. apply in_map_iff in Hin. destruct Hin as (z & Ez & Hz). assert (z = h); [|subst z; contradiction].
+  apply (rd_id_inj_in M); [assumption|apply Hinc; right; assumption|apply Hinc; left; reflexivity|assumption].
+Qed.
+
+Lemma rd_ss_app {A} (R : A -> A -> Prop) (a b : list A) : StronglySorted R (a ++ b) -> forall x y, In x a -> In y b -> R x y.
+Proof.
+  induction a as [|h t IH]; cbn [app]; intros H x y Hx Hy; [destruct Hx|].
+  inversion H as [|? ? Hs Hf]; subst. destruct Hx as [->|Hx]; [|apply IH; assumption].
+  rewrite Forall_forall in Hf. apply Hf. apply in_or_app. right. assumption.
+Qed.
+
+(* exact size, distinct members, all of them candidates *)
+Lemma rd_size_exact fixed nodes prev limit xc perm_of sel m :
+  rd_dom nodes limit xc -> rd_perm_ok perm_of ->
+  rd_reduce fixed nodes prev limit xc perm_of = Some (sel, m) ->
+  m = Z.min limit (Z.of_nat (length nodes)) /\ Z.of_nat (length sel) = m /\
+  NoDup (map rd_id sel) /\ incl sel nodes.
+Proof.
+  intros Hdom Hok H. rewrite (rd_reduce_eq nodes prev limit xc Hdom) in H. inversion H; subst sel m. clear H.
+  destruct (rd_phase2_shape nodes prev limit xc Hdom fixed perm_of Hok) as (S1 & S2 & S3 & _).
+  assert (Hparts := rd_parts_nodup nodes prev limit xc Hdom).
+  assert (HP : NoDup (rd_sel0 nodes prev xc ++ rd_news nodes prev xc)) by (eapply NoDup_map_inv; exact Hparts).
+  assert (Hinc : incl (rd_sel0 nodes prev xc ++ rd_phase2 fixed (rd_news nodes prev xc) (rd_y nodes prev limit xc) perm_of)
+                      (rd_sel0 nodes prev xc ++ rd_news nodes prev xc)).
+  { intros z Hz. apply in_app_or in Hz. apply in_or_app. destruct Hz as [Hz|Hz]; [left; assumption|right; apply S3; assumption]. }
+  assert (HnL : NoDup (rd_sel0 nodes prev xc ++ rd_phase2 fixed (rd_news nodes prev xc) (rd_y nodes prev limit xc) perm_of)).
+  { apply rd_nodup_app; [eapply rd_nodup_app_remove_r; exact HP|assumption|].
+    intros z H1 H2. apply S3 in H2. clear - HP H1 H2.
+    induction (rd_sel0 nodes prev xc) as [|h t IH]; [destruct H1|]. cbn [app] in HP. inversion HP as [|? ? Hni HP']; subst.
+    destruct H1 as [->|H1]; [apply Hni; apply in_or_app; right; assumption|apply IH; assumption]. }
+  split; [reflexivity|]. split.
+  - rewrite app_length, Nat2Z.inj_add, (rd_sel0_length nodes prev limit xc Hdom), S1. unfold rd_y. lia.
+  - split.
+    + apply (rd_nodup_map_sub _ _ HnL Hinc Hparts).
+    + intros z Hz. apply (Permutation_in _ (Permutation_sym (rd_nodes_perm nodes prev xc))). apply Hinc. assumption.
+Qed.
+
+(* the required number of previous members, the highest staked ones, are in the result *)
+Lemma rd_keeps_top_prev fixed nodes prev limit xc perm_of sel m :
+  rd_dom nodes limit xc ->
+  rd_reduce fixed nodes prev limit xc perm_of = Some (sel, m) ->
+  let cand_prev := filter (rd_in_prev prev) nodes in
+  let sel0 := rd_sel0 nodes prev xc in
+  Z.of_nat (length sel0) = Z.min (Z.of_nat (length cand_prev)) xc /\
+  incl sel0 sel /\ incl sel0 cand_prev /\
+  forall a b, In a sel0 -> In b cand_prev -> ~ In b sel0 -> rd_before a b.
+Proof.
+  intros Hdom H cand_prev sel0. rewrite (rd_reduce_eq nodes prev limit xc Hdom) in H. inversion H; subst sel m. clear H.
+  assert (Hpp : Permutation cand_prev (rd_pmb nodes prev)) by apply rd_sort_perm.
+  split; [|split; [|split]].
+  - unfold sel0. rewrite (rd_sel0_length nodes prev limit xc Hdom). unfold rd_x.
+    rewrite <- (Permutation_length Hpp). reflexivity.
+  - intros z Hz. apply in_or_app. left. assumption.
+  - intros z Hz. apply (Permutation_in _ (Permutation_sym Hpp)). unfold sel0, rd_sel0 in Hz. eapply rd_firstn_subset. exact Hz.
+  - intros a b Ha Hb Hnb. apply (Permutation_in _ Hpp) in Hb.
+    assert (Hs := rd_pmb_sorted nodes prev limit xc Hdom). unfold rd_sorted in Hs.
+    rewrite <- (firstn_skipn (Z.to_nat (rd_x nodes prev xc)) (rd_pmb nodes prev)) in Hs, Hb.
+    apply in_app_or in Hb. destruct Hb as [Hb|Hb]; [contradiction|].
+    eapply rd_ss_app; [exact Hs|exact Ha|exact Hb].
+Qed.
+
+(* beyond that quota the choice is by stake *)
+Lemma rd_prefers_higher_stake fixed nodes prev limit xc perm_of sel m :
+  rd_dom nodes limit xc -> rd_perm_ok perm_of ->
+  rd_reduce fixed nodes prev limit xc perm_of = Some (sel, m) ->
+  forall u v, In u nodes -> ~ In u sel -> In v sel -> ~ In v (rd_sel0 nodes prev xc) -> rd_stake v >= rd_stake u.
+Proof.
+  intros Hdom Hok H u v Hu Hnu Hv Hnv. rewrite (rd_reduce_eq nodes prev limit xc Hdom) in H. inversion H; subst sel m. clear H.
+  destruct (rd_phase2_shape nodes prev limit xc Hdom fixed perm_of Hok) as (_ & _ & _ & S4).
+  apply (Permutation_in _ (rd_nodes_perm nodes prev xc)) in Hu.
+  apply in_app_or in Hu. apply in_app_or in Hv.
+  destruct Hv as [Hv|Hv]; [contradiction|].
+  destruct Hu as [Hu|Hu]; [exfalso; apply Hnu, in_or_app; left; assumption|].
+  apply (S4 u v Hu); [intros Hc; apply Hnu, in_or_app; right; assumption|assumption].
+Qed.
+
+(* ties at the cut-off stake: the whole tie group goes through the seeded permutation --
+   for the repaired scan always, for the code as it is outside the trigger *)
+Lemma rd_ties_by_seed fixed nodes prev limit xc perm_of :
+  rd_dom nodes limit xc ->
+  let news := rd_news nodes prev xc in let y := rd_y nodes prev limit xc in
+  y < Z.of_nat (length news) -> 0 < y ->
+  fixed = true \/ rd_trigger news y = false ->
+  rd_reduce fixed nodes prev limit xc perm_of =
+    Some (rd_sel0 nodes prev xc ++ rd_phase2_spec news y perm_of, rd_maxn nodes limit).
+Proof.
+  intros Hdom news y Hlen Hy Hcase. rewrite (rd_reduce_eq nodes prev limit xc Hdom). fold news y. unfold rd_phase2.
+  destruct (Z.leb_spec (Z.of_nat (length news)) y); [lia|]. destruct (Z.gtb_spec y 0); [|lia].
+  destruct Hcase as [-> | ->]; [reflexivity|]. rewrite andb_false_r. reflexivity.
+Qed.
+
+(* what the code as it is does inside the trigger: the lowest-id tied candidate is selected
+   whatever the seed; only the other tied candidates go through the permutation *)
+Lemma rd_trigger_behaviour nodes prev limit xc perm_of :
+  rd_dom nodes limit xc ->
+  let news := rd_news nodes prev xc in let y := rd_y nodes prev limit xc in
+  y < Z.of_nat (length news) -> 0 < y -> rd_trigger news y = true ->
+  let G := rd_tied (rd_stake (nth (Z.to_nat (y - 1)) news rd_dflt)) news in
+  rd_reduce false nodes prev limit xc perm_of =
+    Some (rd_sel0 nodes prev xc ++ hd rd_dflt G :: rd_pick (tl G) (perm_of (length (tl G))) (y - 1), rd_maxn nodes limit).
+Proof.
+  intros Hdom news y Hlen Hy Ht G. rewrite (rd_reduce_eq nodes prev limit xc Hdom). fold news y. unfold rd_phase2.
+  destruct (Z.leb_spec (Z.of_nat (length news)) y); [lia|]. destruct (Z.gtb_spec y 0); [|lia].
+  rewrite Ht. reflexivity.
+Qed.
+
+(* identical for identical inputs: the iteration order of the map does not matter *)
+Lemma rd_filter_perm {A} (f : A -> bool) l l' : Permutation l l' -> Permutation (filter f l) (filter f l').
+Proof.
+  induction 1 as [|x l l' Hp IH|x y l|l l' l'' H1 IH1 H2 IH2]; cbn [filter].
+  - apply Permutation_refl.
+  - destruct (f x); [apply perm_skip|]; assumption.
+  - destruct (f x); destruct (f y); try apply Permutation_refl. apply perm_swap.
+  - eapply Permutation_trans; eassumption.
+Qed.
+
+Lemma rd_deterministic fixed nodes nodes' prev limit xc perm_of :
+  rd_dom nodes limit xc -> Permutation nodes nodes' ->
+  rd_reduce fixed nodes prev limit xc perm_of = rd_reduce fixed nodes' prev limit xc perm_of.
+Proof.
+  intros Hdom Hp.
+  assert (Hlen : length nodes = length nodes') by (apply Permutation_length; assumption).
+  assert (Hdom' : rd_dom nodes' limit xc).
+  { destruct Hdom as [Hn Hx]. split; [eapply Permutation_NoDup; [apply Permutation_map; exact Hp|assumption]|].
+    unfold rd_maxn in *. rewrite <- Hlen. assumption. }
+  rewrite (rd_reduce_eq nodes prev limit xc Hdom), (rd_reduce_eq nodes' prev limit xc Hdom').
+  assert (Hpmb : rd_pmb nodes prev = rd_pmb nodes' prev).
+  { unfold rd_pmb. apply rd_sort_perm_eq; [|apply rd_filter_perm; assumption].
+    destruct Hdom as [Hn _]. clear - Hn. induction nodes as [|h t IH]; [constructor|]. cbn [map] in Hn. inversion Hn as [|? ? Hni Hn']; subst.
+    cbn [filter]. destruct (rd_in_prev prev h); [|apply IH; assumption]. cbn [map]. constructor; [|apply IH; assumption].
+    intros Hin. apply Hni. apply in_map_iff in Hin. destruct Hin as (z & Ez & Hz). apply filter_In in Hz. rewrite <- Ez. apply in_map. tauto. }
+  assert (Hx : rd_x nodes prev xc = rd_x nodes' prev xc) by (unfold rd_x; rewrite Hpmb; reflexivity).
+  assert (Hs0 : rd_sel0 nodes prev xc = rd_sel0 nodes' prev xc) by (unfold rd_sel0; rewrite Hpmb, Hx; reflexivity).
+  assert (Hm : rd_maxn nodes limit = rd_maxn nodes' limit) by (unfold rd_maxn; rewrite Hlen; reflexivity).
+  assert (Hy : rd_y nodes prev limit xc = rd_y nodes' prev limit xc) by (unfold rd_y; rewrite Hm, Hx; reflexivity).
+  assert (Hnews : rd_news nodes prev xc = rd_news nodes' prev xc).
+  { unfold rd_news. rewrite <- Hpmb, <- Hx. apply rd_sort_perm_eq.
+    - assert (H := rd_parts_nodup nodes prev limit xc Hdom). rewrite map_app in H. apply rd_nodup_app_remove_l in H.
+      eapply Permutation_NoDup; [apply Permutation_map, Permutation_sym, rd_sort_perm|exact H].
+    - apply Permutation_app_tail. apply rd_filter_perm. assumption. }
+  rewrite Hs0, Hm, Hy, Hnews. reflexivity.
+Qed.
